@@ -1435,6 +1435,17 @@ class composite_if(x12_node):
         for e in elem.findall('element'):
             self.children.append(element_if(self.root, self, e))
 
+    def get_path(self):
+        """
+        @return: path of the enclosing loop plus the composite's reference designator
+        @rtype: string
+        """
+        if self._fullpath:
+            return self._fullpath
+        seg_node = self.parent
+        self._fullpath = seg_node.parent.get_path() + '/' + seg_node.path + '%02i' % self.seq
+        return self._fullpath
+
     def _error(self, errh, err_str, err_cde, elem_val):
         """
         Forward the error to an error_handler
